@@ -49,7 +49,12 @@ def err_code(exc):
 
 def Q(x):
     """exact rational of a Python number, as [num, den]"""
-    f = Fraction(x)
+    try:
+        f = Fraction(x)
+    except (TypeError, ValueError, OverflowError):
+        # None, NaN, infinity, text: a value the implementation should never have produced here. The markers are not
+        # integers, so check.evaluate_cases counts the case as a mismatch of its own (outside the model's domain)
+        return [f'not-a-number:{x!r}'[:40], 1]
     return [f.numerator, f.denominator]
 
 
